@@ -36,7 +36,8 @@ KINDS = ["Sphere", "SphereLayered", "LayeredSphere", "Spheres", "Scatterers", "S
          "Uniform", "Gaussian", "BoundedGaussian", "ComplexPrior", "TransformedPrior", "UfuncPrior",
          "Mie", "Multisphere", "Tmatrix", "MieLens", "AberratedMieLens", "Lens",
          "NmpfitStrategy", "LeastSquaresScipyStrategy", "CmaStrategy", "EmceeStrategy", "TemperedStrategy",
-         "AlphaModel", "ExactModel", "ModelTied", "ModelChannels", "LimitOverlaps", "UncertainValue", "SphereWithPriors"]
+         "AlphaModel", "ExactModel", "ModelTied", "ModelChannels", "LimitOverlaps", "UncertainValue", "SphereWithPriors",
+         "SharedScalar", "SharedContainer", "SharedObject", "RigidClusterDefaults"]
 
 
 def cases(tier, seed):
@@ -150,6 +151,41 @@ def _make(what, rng, fl):
         return JanusSphere_Uniform(n=V(2, lo=1.3, hi=2.0), r=V(2, lo=0.3, hi=0.9), rotation=V(3, lo=0, hi=3), center=V())
     if what == "JanusSphere_Tapered":
         return JanusSphere_Tapered(n=V(2, lo=1.3, hi=2.0), r=V(2, lo=0.3, hi=0.6), rotation=V(3, lo=0, hi=3), center=V())
+    if what == "SharedScalar":
+        # ONE Python object used at several places of the saved object (what `n = np.float32(1.5); Sphere(n, ...), Sphere(n, ...)` does)
+        mk = [lambda: np.float32(rng.uniform(1.2, 1.9)), lambda: np.float64(rng.uniform(1.2, 1.9)), lambda: np.int64(rng.integers(2, 5)),
+              lambda: np.int32(rng.integers(2, 5)), lambda: float(rng.uniform(1.2, 1.9)), lambda: int(rng.integers(2, 5)),
+              lambda: complex(rng.uniform(1.2, 1.9), rng.uniform(0.01, 0.2)), lambda: np.complex128(complex(rng.uniform(1.2, 1.9), rng.uniform(0.01, 0.2))),
+              lambda: np.complex64(complex(1.5, 0.25)), lambda: np.float16(1.5), lambda: np.uint8(3)]
+        v = mk[int(rng.integers(0, len(mk)))]()
+        shape = int(rng.integers(0, 4))
+        if shape == 0:
+            return Spheres([Sphere(n=v, r=0.5, center=[0.0, 0.0, 1.0]), Sphere(n=v, r=0.25, center=[0.0, 0.0, 3.0])], warn=False)
+        if shape == 1:
+            return Sphere(n=v, r=v, center=[1.0, 2.0, 3.0]) if not np.iscomplexobj(v) else Sphere(n=[v, v], r=[0.5, 0.75], center=[1.0, 2.0, 3.0])
+        if shape == 2:
+            return Sphere(n=[v, 1.25, v], r=[0.5, 0.75, 1.0], center=[v.real, 2.0, v.real])
+        return Scatterers([Sphere(n=v, r=0.5, center=[0.0, 0.0, 1.0]), Scatterers([Sphere(n=v, r=0.25, center=[0.0, 0.0, 3.0])])])
+    if what == "SharedContainer":
+        kind = int(rng.integers(0, 4))
+        c = [tuple(float(x) for x in rng.uniform(0, 5, 3)), [float(x) for x in rng.uniform(0, 5, 3)], rng.uniform(0, 5, 3),
+             (1, 2, 3)][kind]
+        if rng.random() < 0.5:
+            return Spheres([Sphere(n=1.5, r=0.5, center=c), Sphere(n=1.25, r=0.25, center=c)], warn=False)
+        return Spheroid(n=1.5, r=(0.5, 0.75), rotation=c, center=c)
+    if what == "SharedObject":
+        kind = int(rng.integers(0, 3))
+        if kind == 0:
+            sp = sphere()
+            return Scatterers([sp, sp])
+        if kind == 1:
+            pr = _prior(rng)
+            return Sphere(n=pr, r=pr, center=[pr, 1.0, 2.0])
+        th = Mie(bool(rng.integers(0, 2)), bool(rng.integers(0, 2)))
+        return Lens(lens_angle=float(rng.uniform(0.2, 1.2)), theory=th)
+    if what == "RigidClusterDefaults":
+        # default translation and rotation are the same constant tuple
+        return RigidCluster(Spheres([sphere(), sphere()], warn=False))
     if what == "RigidCluster":
         return RigidCluster(Spheres([sphere(), sphere()], warn=False), translation=V(), rotation=V(3, lo=0, hi=3))
     if what in ("Union", "Difference", "Intersection"):
